@@ -1,1 +1,480 @@
-//! stub
+//! Byte transports for the simulated peers: a plain nonblocking socket and a sans-io TLS client
+//! (`rustls::ClientConnection`, ring provider) on top of one.
+//!
+//! Both move at most one quantum per call on the real AF_UNIX socket with raw syscalls, so the
+//! actor keeps full control of fragmentation. The TLS client draws all entropy through the
+//! provider's `SecureRandom` (ring -> `getrandom`, interposed and seeded by the world) and never
+//! looks at a clock: the certificate verifier below accepts every chain and ignores `now`, session
+//! resumption is off and every connection gets a fresh `ClientConfig`, so the bytes of a handshake
+//! are a function of the plan and the world seed only.
+#![allow(dead_code)]
+
+use std::collections::VecDeque;
+use std::io::{Read, Write};
+use std::sync::{Arc, Mutex};
+
+use rustls::client::danger::{HandshakeSignatureValid, ServerCertVerified, ServerCertVerifier};
+use rustls::crypto::{verify_tls12_signature, verify_tls13_signature, CryptoProvider, WebPkiSupportedAlgorithms};
+use rustls::pki_types::{CertificateDer, ServerName, UnixTime};
+use rustls::{ClientConfig, ClientConnection, DigitallySignedStruct, SignatureScheme};
+use serde::{Deserialize, Serialize};
+
+use super::{rd, wr, Io};
+use crate::sys;
+use crate::world::World;
+
+pub enum ReadOutcome {
+    /// the socket yielded bytes; this many *plaintext* bytes were appended (0 = handshake traffic only)
+    Data(usize),
+    WouldBlock,
+    Eof,
+    Err(i32),
+}
+
+/// A byte stream an actor can run a protocol over. One call = at most one socket operation.
+pub trait Transport {
+    /// Offer plaintext; at most one socket write of at most `quantum` bytes is performed.
+    /// Returns how many bytes of `plain` were accepted (0 = would block / still handshaking).
+    /// An empty `plain` just flushes what is pending.
+    fn write(&mut self, w: &mut World, plain: &[u8], quantum: usize) -> usize;
+    /// At most one socket read of at most `quantum` bytes; plaintext is appended to `buf`.
+    fn read(&mut self, w: &mut World, buf: &mut Vec<u8>, quantum: usize) -> ReadOutcome;
+    /// bytes accepted by `write` (or produced by the handshake) that are not on the socket yet
+    fn pending_out(&self) -> usize;
+    /// plaintext bytes accepted so far
+    fn plain_accepted(&self) -> u64;
+    /// plaintext bytes whose wire image has been written to the socket completely
+    fn plain_on_wire(&self) -> u64;
+    fn wire_written(&self) -> u64;
+    fn wire_read(&self) -> u64;
+    /// first error of a socket write (EPIPE, ECONNRESET...)
+    fn write_error(&self) -> Option<i32>;
+    fn is_handshaking(&self) -> bool {
+        false
+    }
+    /// Announce the end of our byte stream (TLS: close_notify first); the socket's write side is
+    /// shut down once everything pending is flushed by further `write` calls.
+    fn shutdown_write(&mut self);
+    /// Close the descriptor now (pending output is dropped; unread input turns into a reset).
+    fn close(&mut self);
+    fn fd(&self) -> i32;
+    fn tls(&self) -> Option<&TlsRecord> {
+        None
+    }
+}
+
+// ------------------------------------------------------------------------------------- plain
+
+pub struct PlainTransport {
+    fd: i32,
+    written: u64,
+    read: u64,
+    werr: Option<i32>,
+    want_shut: bool,
+    shut: bool,
+}
+impl PlainTransport {
+    pub fn new(fd: i32) -> PlainTransport {
+        PlainTransport { fd, written: 0, read: 0, werr: None, want_shut: false, shut: false }
+    }
+}
+impl Transport for PlainTransport {
+    fn write(&mut self, _w: &mut World, plain: &[u8], quantum: usize) -> usize {
+        if self.fd < 0 || self.werr.is_some() || self.shut {
+            return 0;
+        }
+        let mut n = 0;
+        if !plain.is_empty() {
+            match wr(self.fd, &plain[..plain.len().min(quantum.max(1))]) {
+                Io::N(k) => n = k,
+                Io::WouldBlock | Io::Eof => {}
+                Io::Err(e) => self.werr = Some(e),
+            }
+            self.written += n as u64;
+        }
+        if self.want_shut && n == plain.len() {
+            let _ = sys::shutdown(self.fd, libc::SHUT_WR);
+            self.shut = true;
+        }
+        n
+    }
+    fn read(&mut self, _w: &mut World, buf: &mut Vec<u8>, quantum: usize) -> ReadOutcome {
+        if self.fd < 0 {
+            return ReadOutcome::Err(libc::EBADF);
+        }
+        let mut tmp = vec![0u8; quantum.clamp(1, 262_144)];
+        match rd(self.fd, &mut tmp) {
+            Io::N(n) => {
+                self.read += n as u64;
+                buf.extend_from_slice(&tmp[..n]);
+                ReadOutcome::Data(n)
+            }
+            Io::WouldBlock => ReadOutcome::WouldBlock,
+            Io::Eof => ReadOutcome::Eof,
+            Io::Err(e) => ReadOutcome::Err(e),
+        }
+    }
+    fn pending_out(&self) -> usize { 0 }
+    fn plain_accepted(&self) -> u64 { self.written }
+    fn plain_on_wire(&self) -> u64 { self.written }
+    fn wire_written(&self) -> u64 { self.written }
+    fn wire_read(&self) -> u64 { self.read }
+    fn write_error(&self) -> Option<i32> { self.werr }
+    fn shutdown_write(&mut self) { self.want_shut = true; }
+    fn close(&mut self) {
+        if self.fd >= 0 {
+            sys::close(self.fd);
+            self.fd = -1;
+        }
+    }
+    fn fd(&self) -> i32 { self.fd }
+}
+impl Drop for PlainTransport {
+    fn drop(&mut self) { self.close(); }
+}
+
+// ------------------------------------------------------------------------------------- TLS
+
+#[derive(Clone, Copy, Debug, PartialEq, Eq, Serialize, Deserialize)]
+pub enum TlsVersions {
+    Both,
+    Tls12,
+    Tls13,
+}
+
+#[derive(Clone, Debug, PartialEq, Serialize, Deserialize)]
+pub struct TlsPlan {
+    /// server name to send; `None` = no SNI extension
+    pub sni: Option<String>,
+    /// ALPN protocols offered, in order (e.g. ["h2"], ["h2","http/1.1"], [] = none)
+    pub alpn: Vec<String>,
+    pub versions: TlsVersions,
+    /// maximum TLS record size produced by this client (rustls `max_fragment_size`, >= 32)
+    pub max_fragment_size: Option<usize>,
+}
+impl TlsPlan {
+    pub fn h2(sni: &str) -> TlsPlan {
+        TlsPlan { sni: Some(sni.to_string()), alpn: vec!["h2".into()], versions: TlsVersions::Both, max_fragment_size: None }
+    }
+}
+
+/// What the TLS client observed.
+#[derive(Clone, Debug, Default, Serialize, Deserialize)]
+pub struct TlsRecord {
+    pub handshake_done: bool,
+    pub t_handshake_done: u64,
+    pub alpn: Option<String>,
+    pub version: Option<String>,
+    pub cipher: Option<String>,
+    /// DER of the end-entity certificate the server presented
+    pub cert_der: Option<Vec<u8>>,
+    /// number of intermediates presented after it
+    pub chain_extra: usize,
+    /// did the handshake signature verify against that certificate's key (the connection is
+    /// accepted either way)
+    pub signature_ok: Option<bool>,
+    /// rustls error that ended the session (includes fatal alerts received from the server)
+    pub error: Option<String>,
+    pub close_notify_received: bool,
+    /// the socket ended without close_notify
+    pub unclean_eof: bool,
+    pub handshake_wire_out: u64,
+    pub handshake_wire_in: u64,
+    /// FNV-1a over every ciphertext byte written / read (determinism fingerprint: same plan and
+    /// world seed => same values)
+    pub wire_out_hash: u64,
+    pub wire_in_hash: u64,
+}
+fn fnv(mut h: u64, b: &[u8]) -> u64 {
+    if h == 0 { h = 0xcbf29ce484222325; }
+    for c in b { h = (h ^ *c as u64).wrapping_mul(0x100000001b3); }
+    h
+}
+
+#[derive(Debug, Default)]
+struct Seen {
+    cert: Option<Vec<u8>>,
+    chain_extra: usize,
+    sig_ok: Option<bool>,
+}
+
+/// Accepts every certificate and records it.
+#[derive(Debug)]
+struct RecordingVerifier {
+    seen: Arc<Mutex<Seen>>,
+    algs: WebPkiSupportedAlgorithms,
+}
+impl ServerCertVerifier for RecordingVerifier {
+    fn verify_server_cert(
+        &self,
+        end_entity: &CertificateDer<'_>,
+        intermediates: &[CertificateDer<'_>],
+        _server_name: &ServerName<'_>,
+        _ocsp_response: &[u8],
+        _now: UnixTime,
+    ) -> Result<ServerCertVerified, rustls::Error> {
+        let mut s = self.seen.lock().unwrap();
+        s.cert = Some(end_entity.as_ref().to_vec());
+        s.chain_extra = intermediates.len();
+        Ok(ServerCertVerified::assertion())
+    }
+    fn verify_tls12_signature(&self, message: &[u8], cert: &CertificateDer<'_>, dss: &DigitallySignedStruct) -> Result<HandshakeSignatureValid, rustls::Error> {
+        let ok = verify_tls12_signature(message, cert, dss, &self.algs).is_ok();
+        self.seen.lock().unwrap().sig_ok = Some(ok);
+        Ok(HandshakeSignatureValid::assertion())
+    }
+    fn verify_tls13_signature(&self, message: &[u8], cert: &CertificateDer<'_>, dss: &DigitallySignedStruct) -> Result<HandshakeSignatureValid, rustls::Error> {
+        let ok = verify_tls13_signature(message, cert, dss, &self.algs).is_ok();
+        self.seen.lock().unwrap().sig_ok = Some(ok);
+        Ok(HandshakeSignatureValid::assertion())
+    }
+    fn supported_verify_schemes(&self) -> Vec<SignatureScheme> {
+        self.algs.supported_schemes()
+    }
+}
+
+/// Pending ciphertext is capped so that plaintext is accepted just in time.
+const HIGH_WATER: usize = 64 * 1024;
+
+pub struct TlsTransport {
+    fd: i32,
+    conn: ClientConnection,
+    seen: Arc<Mutex<Seen>>,
+    pub rec: TlsRecord,
+    /// ciphertext not yet written
+    out: Vec<u8>,
+    out_pos: usize,
+    cipher_total: u64,
+    wire_written: u64,
+    wire_read: u64,
+    plain_accepted: u64,
+    plain_on_wire: u64,
+    /// (plaintext offset, ciphertext offset at which it is completely on the wire)
+    marks: VecDeque<(u64, u64)>,
+    werr: Option<i32>,
+    want_shut: bool,
+    shut: bool,
+    fatal: bool,
+}
+
+impl TlsTransport {
+    pub fn new(fd: i32, plan: &TlsPlan) -> Result<TlsTransport, String> {
+        let provider: Arc<CryptoProvider> = Arc::new(rustls::crypto::ring::default_provider());
+        let algs = provider.signature_verification_algorithms;
+        let seen = Arc::new(Mutex::new(Seen::default()));
+        let versions: &[&rustls::SupportedProtocolVersion] = match plan.versions {
+            TlsVersions::Both => &[&rustls::version::TLS13, &rustls::version::TLS12],
+            TlsVersions::Tls12 => &[&rustls::version::TLS12],
+            TlsVersions::Tls13 => &[&rustls::version::TLS13],
+        };
+        let mut cfg = ClientConfig::builder_with_provider(provider)
+            .with_protocol_versions(versions)
+            .map_err(|e| format!("tls versions: {e}"))?
+            .dangerous()
+            .with_custom_certificate_verifier(Arc::new(RecordingVerifier { seen: seen.clone(), algs }))
+            .with_no_client_auth();
+        cfg.alpn_protocols = plan.alpn.iter().map(|p| p.as_bytes().to_vec()).collect();
+        cfg.resumption = rustls::client::Resumption::disabled();
+        cfg.max_fragment_size = plan.max_fragment_size;
+        cfg.enable_sni = plan.sni.is_some();
+        let name = plan.sni.clone().unwrap_or_else(|| "unnamed.invalid".to_string());
+        let name = ServerName::try_from(name).map_err(|e| format!("server name: {e}"))?;
+        let conn = ClientConnection::new(Arc::new(cfg), name).map_err(|e| format!("tls client: {e}"))?;
+        Ok(TlsTransport {
+            fd,
+            conn,
+            seen,
+            rec: TlsRecord::default(),
+            out: Vec::new(),
+            out_pos: 0,
+            cipher_total: 0,
+            wire_written: 0,
+            wire_read: 0,
+            plain_accepted: 0,
+            plain_on_wire: 0,
+            marks: VecDeque::new(),
+            werr: None,
+            want_shut: false,
+            shut: false,
+            fatal: false,
+        })
+    }
+
+    fn pull_ciphertext(&mut self) {
+        while self.conn.wants_write() {
+            let before = self.out.len();
+            if self.conn.write_tls(&mut self.out).is_err() {
+                break;
+            }
+            self.cipher_total += (self.out.len() - before) as u64;
+        }
+    }
+
+    fn drain_plaintext(&mut self, buf: &mut Vec<u8>) -> usize {
+        let mut total = 0;
+        let mut chunk = [0u8; 16_384];
+        loop {
+            match self.conn.reader().read(&mut chunk) {
+                Ok(0) => {
+                    self.rec.close_notify_received = true;
+                    break;
+                }
+                Ok(n) => {
+                    buf.extend_from_slice(&chunk[..n]);
+                    total += n;
+                }
+                Err(_) => break, // WouldBlock: nothing decrypted yet; UnexpectedEof is reported by the socket
+            }
+        }
+        total
+    }
+
+    fn note_handshake(&mut self, w: &World) {
+        {
+            let s = self.seen.lock().unwrap();
+            if self.rec.cert_der.is_none() {
+                self.rec.cert_der = s.cert.clone();
+                self.rec.chain_extra = s.chain_extra;
+            }
+            self.rec.signature_ok = s.sig_ok;
+        }
+        if !self.rec.handshake_done && !self.conn.is_handshaking() {
+            self.rec.handshake_done = true;
+            self.rec.t_handshake_done = w.now;
+            self.rec.alpn = self.conn.alpn_protocol().map(|p| String::from_utf8_lossy(p).into_owned());
+            self.rec.version = self.conn.protocol_version().map(|v| format!("{v:?}"));
+            self.rec.cipher = self.conn.negotiated_cipher_suite().map(|c| format!("{:?}", c.suite()));
+            self.rec.handshake_wire_in = self.wire_read;
+            self.rec.handshake_wire_out = self.cipher_total;
+        }
+    }
+}
+
+impl Transport for TlsTransport {
+    fn write(&mut self, w: &mut World, plain: &[u8], quantum: usize) -> usize {
+        if self.fd < 0 || self.werr.is_some() || self.shut {
+            return 0;
+        }
+        let mut consumed = 0;
+        if !plain.is_empty() && !self.fatal && !self.want_shut && !self.conn.is_handshaking() && self.out.len() - self.out_pos < HIGH_WATER {
+            let take = plain.len().min(HIGH_WATER);
+            consumed = self.conn.writer().write(&plain[..take]).unwrap_or(0);
+            self.plain_accepted += consumed as u64;
+        }
+        self.pull_ciphertext();
+        if consumed > 0 {
+            self.marks.push_back((self.plain_accepted, self.cipher_total));
+        }
+        if self.out_pos < self.out.len() {
+            let q = (self.out.len() - self.out_pos).min(quantum.max(1));
+            match wr(self.fd, &self.out[self.out_pos..self.out_pos + q]) {
+                Io::N(n) => {
+                    self.rec.wire_out_hash = fnv(self.rec.wire_out_hash, &self.out[self.out_pos..self.out_pos + n]);
+                    w.tr(0x7150, self.rec.wire_out_hash);
+                    self.out_pos += n;
+                    self.wire_written += n as u64;
+                }
+                Io::WouldBlock | Io::Eof => {}
+                Io::Err(e) => self.werr = Some(e),
+            }
+            if self.out_pos == self.out.len() {
+                self.out.clear();
+                self.out_pos = 0;
+            } else if self.out_pos > HIGH_WATER {
+                self.out.drain(..self.out_pos);
+                self.out_pos = 0;
+            }
+        }
+        while let Some((p, c)) = self.marks.front().copied() {
+            if c <= self.wire_written {
+                self.plain_on_wire = p;
+                self.marks.pop_front();
+            } else {
+                break;
+            }
+        }
+        if self.want_shut && self.out.is_empty() && !self.conn.wants_write() {
+            let _ = sys::shutdown(self.fd, libc::SHUT_WR);
+            self.shut = true;
+        }
+        self.note_handshake(w);
+        consumed
+    }
+
+    fn read(&mut self, w: &mut World, buf: &mut Vec<u8>, quantum: usize) -> ReadOutcome {
+        if self.fd < 0 {
+            return ReadOutcome::Err(libc::EBADF);
+        }
+        if self.fatal {
+            return ReadOutcome::Err(libc::EPROTO);
+        }
+        let mut tmp = vec![0u8; quantum.clamp(1, 262_144)];
+        match rd(self.fd, &mut tmp) {
+            Io::N(n) => {
+                self.wire_read += n as u64;
+                self.rec.wire_in_hash = fnv(self.rec.wire_in_hash, &tmp[..n]);
+                w.tr(0x7151, self.rec.wire_in_hash);
+                let mut plain = 0;
+                let mut sl: &[u8] = &tmp[..n];
+                while !sl.is_empty() {
+                    match self.conn.read_tls(&mut sl) {
+                        Ok(0) => break,
+                        Ok(_) => {}
+                        Err(e) => {
+                            self.rec.error = Some(format!("read_tls: {e}"));
+                            self.fatal = true;
+                            break;
+                        }
+                    }
+                    if let Err(e) = self.conn.process_new_packets() {
+                        // rustls has queued the alert; `write` will flush it
+                        self.rec.error = Some(format!("{e}"));
+                        self.fatal = true;
+                        break;
+                    }
+                    plain += self.drain_plaintext(buf);
+                }
+                self.note_handshake(w);
+                if self.fatal && plain == 0 {
+                    return ReadOutcome::Err(libc::EPROTO);
+                }
+                ReadOutcome::Data(plain)
+            }
+            Io::WouldBlock => ReadOutcome::WouldBlock,
+            Io::Eof => {
+                if !self.rec.close_notify_received {
+                    self.rec.unclean_eof = true;
+                }
+                ReadOutcome::Eof
+            }
+            Io::Err(e) => ReadOutcome::Err(e),
+        }
+    }
+
+    fn pending_out(&self) -> usize {
+        (self.out.len() - self.out_pos) + if self.conn.wants_write() { 1 } else { 0 }
+    }
+    fn plain_accepted(&self) -> u64 { self.plain_accepted }
+    fn plain_on_wire(&self) -> u64 { self.plain_on_wire }
+    fn wire_written(&self) -> u64 { self.wire_written }
+    fn wire_read(&self) -> u64 { self.wire_read }
+    fn write_error(&self) -> Option<i32> { self.werr }
+    fn is_handshaking(&self) -> bool { self.conn.is_handshaking() }
+    fn shutdown_write(&mut self) {
+        if !self.want_shut {
+            self.want_shut = true;
+            self.conn.send_close_notify();
+        }
+    }
+    fn close(&mut self) {
+        if self.fd >= 0 {
+            sys::close(self.fd);
+            self.fd = -1;
+        }
+    }
+    fn fd(&self) -> i32 { self.fd }
+    fn tls(&self) -> Option<&TlsRecord> { Some(&self.rec) }
+}
+impl Drop for TlsTransport {
+    fn drop(&mut self) { self.close(); }
+}
